@@ -47,6 +47,9 @@ func genPairCase(t *rapid.T, optSets []string, tweak func(*gen.Profile)) PairCas
 	}
 	if ks := jdx.SetKeysOf(opts); ks != nil && gen.Chance(t, "keyedPair", 65) {
 		a, b := gen.KeyedPair(t, ks, p)
+		if gen.Chance(t, "deep", 15) {
+			a, b = gen.DeepPair(t, a, b, p)
+		}
 		return PairCase{A: val.JSON(a), B: val.JSON(b), Opts: opts}
 	}
 	if jdx.Reading(opts) == val.List && !jdx.IsMerge(opts) && gen.Chance(t, "listRich", 50) {
@@ -54,6 +57,9 @@ func genPairCase(t *rapid.T, optSets []string, tweak func(*gen.Profile)) PairCas
 		p.MaxArr = 8
 	}
 	a, b, _ := gen.Pair(t, p)
+	if gen.Chance(t, "deep", 15) {
+		a, b = gen.DeepPair(t, a, b, p)
+	}
 	return PairCase{A: val.JSON(a), B: val.JSON(b), Opts: opts}
 }
 
